@@ -332,7 +332,7 @@ const PRIMS: &[&str] = &[
     "simple-format", "zero?", "positive?", "negative?", "even?", "odd?", "1+", "1-", "min", "max", "abs", "eq?", "eqv?", "null?", "pair?", "list?", "car", "cdr", "cons", "cadr", "length",
     "append", "reverse", "list-ref", "memq", "memv", "assoc", "assq", "assv", "string?", "number?", "integer?", "boolean?", "char?", "procedure?", "string-length", "string-upcase",
     "string-downcase", "string-prefix?", "string-suffix?", "string-contains", "substring", "string-ref", "string-null?", "string<?", "char=?", "apply", "map", "for-each", "expt", "ash", "logxor",
-    "lognot", "logtest", "identity", "const", "string->number", "string-join", "number->string/pad",
+    "lognot", "logtest", "logbit?", "logcount", "integer-length", "identity", "const", "string->number", "string-join", "number->string/pad",
 ];
 
 /// Standard Guile / R5RS / SRFI names the model does not implement: meeting one makes the run
@@ -345,7 +345,7 @@ pub const KNOWN_UNMODELLED: &[&str] = &[
     "string-rindex", "string-map", "string-for-each", "string-fold", "string-concatenate", "string-reverse", "string-take", "string-drop", "string-count", "string-tokenize", "string-filter",
     "string-delete", "string-replace", "string-ci=?", "string>?", "string<=?", "string>=?", "char<?", "char>?", "char-upcase", "char-downcase", "char-alphabetic?", "char-numeric?", "char-whitespace?",
     "exact->inexact", "inexact->exact", "exact", "inexact", "round", "floor", "ceiling", "truncate", "floor/", "truncate/", "floor-quotient", "euclidean/", "sqrt", "exp", "log", "sin", "cos",
-    "number?", "real?", "rational?", "exact?", "inexact?", "nan?", "gcd", "lcm", "numerator", "denominator", "bit-extract", "logbit?", "logcount", "integer-length", "arithmetic-shift",
+    "number?", "real?", "rational?", "exact?", "inexact?", "nan?", "gcd", "lcm", "numerator", "denominator", "bit-extract", "arithmetic-shift",
     "filter", "filter-map", "fold", "fold-right", "reduce", "any", "every", "find", "find-tail", "delete", "delete-duplicates", "remove", "partition", "iota", "last", "last-pair", "list-tail",
     "list-head", "list-copy", "sort", "assoc-ref", "assq-ref", "assv-ref", "acons", "hash-ref", "hash-set!", "make-hash-table", "hashq-ref", "hashq-set!", "caar", "cddr", "cdar", "caddr",
     "set-car!", "set-cdr!", "call-with-output-string", "with-output-to-string", "call-with-input-string", "open-output-string", "get-output-string", "open-input-string", "read", "write", "write-line",
@@ -1484,6 +1484,20 @@ impl Interp {
             "logtest" => {
                 Self::arity(name, a, 2, 2)?;
                 Ok(V::Bool(Self::int(&a[0], name)? & Self::int(&a[1], name)? != 0))
+            }
+            "logbit?" => {
+                Self::arity(name, a, 2, 2)?;
+                let i = Self::int(&a[0], name)?;
+                let n = Self::int(&a[1], name)?;
+                if !(0..=126).contains(&i) {
+                    return Err(Self::ovf(name));
+                }
+                Ok(V::Bool((n >> i) & 1 == 1))
+            }
+            "logcount" | "integer-length" => {
+                Self::arity(name, a, 1, 1)?;
+                let n = Self::int(&a[0], name)?;
+                Ok(V::Int(if name == "logcount" { (if n >= 0 { n } else { !n }).count_ones() as i128 } else { 128 - (if n >= 0 { n } else { !n }).leading_zeros() as i128 }))
             }
             "identity" => {
                 Self::arity(name, a, 1, 1)?;
